@@ -139,6 +139,10 @@ Record client := mkClient {
   c_h3    : bool;            (* t3 != nil (and altSvcJar / pendingAltSvcs allocated) *)
   c_allow_http : bool;       (* t2.AllowHTTP *)
   c_plain_dialtls : bool;    (* Options.DialTLSContext = plain net.Dial (installed by EnableH2C) *)
+  c_udial : option tlscfg;   (* Options.DialTLSContext = a caller-supplied function (SetDialTLS) that returns a
+                                TLS connection it has handshaken itself with this configuration *)
+  c_uhs   : option tlscfg;   (* Options.TLSHandshakeContext = a caller-supplied handshake (SetTLSHandshake) that
+                                runs crypto/tls over the given connection with this configuration *)
   c_idle  : bool;            (* idle HTTP/1 connection under the key with onlyH1 = false *)
   c_idle1 : bool;            (* idle HTTP/1 connection under the key with onlyH1 = true *)
   c_t2    : bool;            (* t2's pool has a connection for the origin *)
@@ -148,16 +152,19 @@ Record client := mkClient {
 }.
 (* req.C(): transport.go T() + client.go C() *)
 Definition new_client : client :=
-  mkClient (Some (mkTls [] [] [] false default_next_protos)) FNone false false false false false false T3None ANone false.
+  mkClient (Some (mkTls [] [] [] false default_next_protos)) FNone false false false None None false false false T3None ANone false.
 
-Definition with_tls o c := mkClient o (c_force c) (c_h3 c) (c_allow_http c) (c_plain_dialtls c) (c_idle c) (c_idle1 c) (c_t2 c) (c_t3 c) (c_alt c) (c_bg c).
-Definition with_force f c := mkClient (c_tls c) f (c_h3 c) (c_allow_http c) (c_plain_dialtls c) (c_idle c) (c_idle1 c) (c_t2 c) (c_t3 c) (c_alt c) (c_bg c).
-Definition with_h3 b c := mkClient (c_tls c) (c_force c) b (c_allow_http c) (c_plain_dialtls c) (c_idle c) (c_idle1 c) (c_t2 c) (c_t3 c) (c_alt c) (c_bg c).
-Definition with_h2c a p c := mkClient (c_tls c) (c_force c) (c_h3 c) a p (c_idle c) (c_idle1 c) (c_t2 c) (c_t3 c) (c_alt c) (c_bg c).
-Definition with_idle i i1 c := mkClient (c_tls c) (c_force c) (c_h3 c) (c_allow_http c) (c_plain_dialtls c) i i1 (c_t2 c) (c_t3 c) (c_alt c) (c_bg c).
-Definition with_t2 b c := mkClient (c_tls c) (c_force c) (c_h3 c) (c_allow_http c) (c_plain_dialtls c) (c_idle c) (c_idle1 c) b (c_t3 c) (c_alt c) (c_bg c).
-Definition with_t3 x c := mkClient (c_tls c) (c_force c) (c_h3 c) (c_allow_http c) (c_plain_dialtls c) (c_idle c) (c_idle1 c) (c_t2 c) x (c_alt c) (c_bg c).
-Definition with_alt a bg c := mkClient (c_tls c) (c_force c) (c_h3 c) (c_allow_http c) (c_plain_dialtls c) (c_idle c) (c_idle1 c) (c_t2 c) (c_t3 c) a bg.
+Definition with_tls o c := mkClient o (c_force c) (c_h3 c) (c_allow_http c) (c_plain_dialtls c) (c_udial c) (c_uhs c) (c_idle c) (c_idle1 c) (c_t2 c) (c_t3 c) (c_alt c) (c_bg c).
+Definition with_force f c := mkClient (c_tls c) f (c_h3 c) (c_allow_http c) (c_plain_dialtls c) (c_udial c) (c_uhs c) (c_idle c) (c_idle1 c) (c_t2 c) (c_t3 c) (c_alt c) (c_bg c).
+Definition with_h3 b c := mkClient (c_tls c) (c_force c) b (c_allow_http c) (c_plain_dialtls c) (c_udial c) (c_uhs c) (c_idle c) (c_idle1 c) (c_t2 c) (c_t3 c) (c_alt c) (c_bg c).
+Definition with_h2c a p c := mkClient (c_tls c) (c_force c) (c_h3 c) a p None (c_uhs c) (c_idle c) (c_idle1 c) (c_t2 c) (c_t3 c) (c_alt c) (c_bg c).
+Definition with_idle i i1 c := mkClient (c_tls c) (c_force c) (c_h3 c) (c_allow_http c) (c_plain_dialtls c) (c_udial c) (c_uhs c) i i1 (c_t2 c) (c_t3 c) (c_alt c) (c_bg c).
+Definition with_t2 b c := mkClient (c_tls c) (c_force c) (c_h3 c) (c_allow_http c) (c_plain_dialtls c) (c_udial c) (c_uhs c) (c_idle c) (c_idle1 c) b (c_t3 c) (c_alt c) (c_bg c).
+Definition with_t3 x c := mkClient (c_tls c) (c_force c) (c_h3 c) (c_allow_http c) (c_plain_dialtls c) (c_udial c) (c_uhs c) (c_idle c) (c_idle1 c) (c_t2 c) x (c_alt c) (c_bg c).
+(* SetDialTLS(fn) / SetDialTLS(nil): the single DialTLSContext slot (EnableH2C's plain dialler is overwritten) *)
+Definition with_udial o c := mkClient (c_tls c) (c_force c) (c_h3 c) (c_allow_http c) false o (c_uhs c) (c_idle c) (c_idle1 c) (c_t2 c) (c_t3 c) (c_alt c) (c_bg c).
+Definition with_uhs o c := mkClient (c_tls c) (c_force c) (c_h3 c) (c_allow_http c) (c_plain_dialtls c) (c_udial c) o (c_idle c) (c_idle1 c) (c_t2 c) (c_t3 c) (c_alt c) (c_bg c).
+Definition with_alt a bg c := mkClient (c_tls c) (c_force c) (c_h3 c) (c_allow_http c) (c_plain_dialtls c) (c_udial c) (c_uhs c) (c_idle c) (c_idle1 c) (c_t2 c) (c_t3 c) a bg.
 
 (* ---------- configuration operations ---------- *)
 (* client.go GetTLSClientConfig: allocate {NextProtos: h2, http/1.1} when the pointer is nil *)
@@ -173,7 +180,9 @@ Inductive forkact :=
 | FkAddRoot (r : N)
 | FkSName (s : bytes)
 | FkForce (f : force)
-| FkH2C (b : bool).
+| FkH2C (b : bool)
+| FkDialTLS (o : option tlscfg)
+| FkHandshake (o : option tlscfg).
 
 Inductive op :=
 | OSetTLS (o : option tlscfg)   (* SetTLSClientConfig(conf) *)
@@ -184,6 +193,8 @@ Inductive op :=
 | OForce (f : force)            (* EnableForceHTTP1/2/3, DisableForceHttpVersion (FNone) *)
 | OEnableH3                     (* EnableHTTP3 *)
 | OH2C (b : bool)               (* EnableH2C / DisableH2C *)
+| ODialTLS (o : option tlscfg)  (* SetDialTLS(fn doing its own TLS with this configuration) / SetDialTLS(nil) *)
+| OHandshake (o : option tlscfg) (* SetTLSHandshake(fn running crypto/tls with this configuration) / (nil) *)
 | OClone                        (* Clone(): go on with the clone *)
 | OCloseIdle                    (* Transport.CloseIdleConnections *)
 | OBg                           (* the pending handlePendingAltSvc goroutine (if any) runs now *)
@@ -193,6 +204,19 @@ Inductive op :=
 
 (* ---------- the round trip ---------- *)
 Definition res := (outcome * list dial * client)%type.
+
+(* caller-supplied TLS (documented: valid for HTTP/1 and HTTP/2 only, HTTP/3 keeps using TLSClientConfig):
+   DialTLSContext, when set, is consulted first by both TCP diallers; TLSHandshakeContext otherwise *)
+Definition user_tls (c : client) : option tlscfg :=
+  match c_udial c with Some t => Some t | None => c_uhs c end.
+(* the tls.Config a TCP dial of stack s handshakes with (the harness's caller-supplied functions default the
+   server name to the dialled host like every stack does) *)
+Definition tcp_cfg (s : stack) (only_h1 : bool) (host : bytes) (c : client) : tlscfg :=
+  match user_tls c with
+  | Some t => default_sname host t
+  | None => tls_view s only_h1 host (c_tls c)
+  end.
+Definition stack_quic (s : stack) : bool := match s with S3 => true | _ => false end.
 
 (* http3 RoundTripper.dial + quic handshake *)
 Definition h3_dial (e : env) (c : client) : hs * dial :=
@@ -230,12 +254,15 @@ Definition rt_h2_dial (e : env) (c : client) : res :=
     else (Fail EProto, [], c)
   else if negb (e_https e) then (Fail EProto, [], c)               (* TLS hello to the plain listener *)
   else
-    let cfg := tls_view S2 false (e_host e) (c_tls c) in
+    let cfg := tcp_cfg S2 false (e_host e) c in
     let h := handshake (s_alpn (e_srv e)) cfg (e_srv e) in
     match h with
     | HsFail er => (Fail er, [mk_dial S2 cfg h], c)
     | HsOk p => if opt_bytes_eqb p (Some alpn_h2) then (Use V2, [mk_dial S2 cfg h], with_t2 true c)
-                else (Fail EAlpn, [mk_dial S2 cfg h], c)           (* http2: unexpected ALPN protocol *)
+                else match c_udial c with
+                     | Some _ => (Fail EProto, [mk_dial S2 cfg h], c)  (* DialTLSContext's connection is used as is: h2 spoken to an HTTP/1.1 server *)
+                     | None => (Fail EAlpn, [mk_dial S2 cfg h], c)     (* http2: unexpected ALPN protocol *)
+                     end
     end.
 
 (* getConn + dialConn + the request on the connection obtained *)
@@ -245,13 +272,17 @@ Definition rt_conn (e : env) (c : client) : res :=
   let idle c' := if only_h1 then with_idle (c_idle c') true c' else with_idle true (c_idle1 c') c' in
   if negb (e_https e) then (Use V1, [], idle c) else
   if c_plain_dialtls c then (Cleartext, [], c) else                       (* customDialTLS: not a tls Conn *)
-  let cfg := tls_view S1 only_h1 (e_host e) (c_tls c) in
+  let cfg := tcp_cfg S1 only_h1 (e_host e) c in
   let h := handshake (s_alpn (e_srv e)) cfg (e_srv e) in
   match h with
   | HsFail er => (Fail er, [mk_dial S1 cfg h], c)
   | HsOk p =>
-      if negb only_h1 && opt_bytes_eqb p (Some alpn_h2)
-      then (Use V2, [mk_dial S1 cfg h], with_t2 true c)                   (* t2.AddConn, alt = t2 *)
+      if opt_bytes_eqb p (Some alpn_h2) then
+        if only_h1
+        then (Fail EProto, [mk_dial S1 cfg h], c)   (* only with caller-supplied TLS (addTLS offers no ALPN under onlyH1):
+                                                       h2 negotiated, no hand-off because HTTP/1.1 is forced, HTTP/1.1
+                                                       written to an HTTP/2 server *)
+        else (Use V2, [mk_dial S1 cfg h], with_t2 true c)                 (* t2.AddConn, alt = t2 *)
       else (Use V1, [mk_dial S1 cfg h], idle c)
   end.
 
@@ -324,7 +355,7 @@ Definition do_bg (e : env) (c : client) : list dial * client :=
 (* Transport.Clone (+ Options.Clone): configuration copied, connection state fresh *)
 Definition do_clone (c : client) : client :=
   mkClient (c_tls c) (c_force c) (c_h3 c) (clone_copies_allow_http && c_allow_http c) (c_plain_dialtls c)
-           false false false T3None ANone false.
+           (c_udial c) (c_uhs c) false false false T3None ANone false.
 
 (* Alt-Svc bookkeeping as the hook VerifAltSvcState reports it *)
 Inductive altobs := AOff | AObsNone | AObsPending | AObsReady | AObsJar.
@@ -348,6 +379,8 @@ Definition fork_apply (a : forkact) (c : client) : client :=
   | FkForce f => with_force f c
   | FkH2C true => with_h2c true true c
   | FkH2C false => with_h2c false false c
+  | FkDialTLS o => with_udial o c
+  | FkHandshake o => with_uhs o c
   end.
 
 Definition step_gen (guard : bool) (e : env) (c : client) (o : op) : obs * client :=
@@ -362,6 +395,8 @@ Definition step_gen (guard : bool) (e : env) (c : client) (o : op) : obs * clien
   | OEnableH3 => (ObsCfg, with_h3 true c)
   | OH2C true => (ObsCfg, with_h2c true true c)
   | OH2C false => (ObsCfg, with_h2c false false c)
+  | ODialTLS o => (ObsCfg, with_udial o c)
+  | OHandshake o => (ObsCfg, with_uhs o c)
   | OClone => (ObsCfg, do_clone c)
   | OCloseIdle => (ObsCfg, with_idle false false (with_t2 false (if closeidle_closes_h3 then with_t3 T3None c else c)))
   | OBg => let '(ds, c') := do_bg e c in (ObsBg ds (alt_obs c'), c')
